@@ -254,6 +254,18 @@ fn parse_players_and_teams(packets: Vec<Vec<u8>>) -> GDResult<(Vec<Player>, Vec<
             let field_split: Vec<&str> = field.split('_').collect();
             let field_name = field_split.first().ok_or(GDErrorKind::PacketBad)?;
             if !["player", "score", "ping", "team", "deaths", "pid", "skill"].contains(field_name) {
+                // A field the response has no place for: skip its offset and its items as a whole,
+                // an item is not a field name even if it reads like one.
+                if buf.remaining_length() != 0 {
+                    buf.move_cursor(1)?;
+                }
+
+                while buf.remaining_length() != 0 {
+                    if buf.read_string::<Utf8Decoder>(None)?.is_empty() {
+                        break;
+                    }
+                }
+
                 continue;
             }
 
